@@ -72,9 +72,9 @@ def check_roundtrip(inp):
 # deeply nested formulas (built by program: "grant within 120 steps", a conjunction folded over 300
 # atoms).  Everything on the harness side is iterative; the interpreter's recursion limit is left alone.
 
-def deep_formula(logic, shape, k):
-    """Harness tuple of nesting k, built inside-out."""
-    P_, Q_ = fm.P, fm.Q
+def deep_formula(logic, shape, k, leaf=None):
+    """Harness tuple of nesting k, built inside-out from the innermost leaf (default p)."""
+    P_, Q_ = (leaf or fm.P), fm.Q
     nxt = {'PL': lambda f: ('not', f), 'LTL': lambda f: ('X', f), 'CTLS': lambda f: ('X', f),
            'CTL': lambda f: ('A', ('X', f))}[logic]
     nxt2 = {'PL': lambda f: ('not', f), 'LTL': lambda f: ('G', f), 'CTLS': lambda f: ('E', ('F', f)),
